@@ -540,8 +540,8 @@ func (o *coreOracle) batchNotReady(s *Sim, rd *v1beta1.BatchRelease, b int) stri
 	case *appsv1.Deployment:
 		n = int(*wl.Spec.Replicas)
 		if style == v1beta1.CanaryRollingStyle || plan.EnableExtraWorkloadForCanary {
-			if canary == nil || wl2gen(canary) {
-				return ""
+			if canary == nil || wl2gen(canary) || o.liveCanaries(s) > 1 {
+				return "" // with duplicated canary Deployments (C06 A1) it is undefined which one the controller looks at
 			}
 			updated, ready = int(canary.Status.Replicas), int(canary.Status.AvailableReplicas)
 		} else {
@@ -622,6 +622,17 @@ func (o *coreOracle) OnReconcileEnd(s *Sim, info *RecInfo) {
 	if msg := o.batchNotReady(s, rd, int(rd.Status.CanaryStatus.CurrentBatch)); msg != "" {
 		s.Violate("C11", "B4-fallback", "B4/"+o.sc.Family, s.Store.seq, "BatchRelease reconcile left batch %d Ready although the workload it read has %s", rd.Status.CanaryStatus.CurrentBatch, msg)
 	}
+}
+
+func (o *coreOracle) liveCanaries(s *Sim) int {
+	n := 0
+	for _, k := range s.Store.Keys(gkDeployment) {
+		d := s.Store.Peek(k).(*appsv1.Deployment)
+		if d.Labels[canaryDepLabel] == o.sc.Name && d.DeletionTimestamp == nil {
+			n++
+		}
+	}
+	return n
 }
 
 // wl2gen: the workload's own controller has not caught up with its spec yet (status not trustworthy)
